@@ -143,6 +143,8 @@ typedef struct casectx {
 	const vf_proto *proto;
 	int             tran;
 	bool            device, expiry, rawv, notify, keep;
+	const char     *key_tag; // discriminator of the lost-operation keys (default: protocol)
+	_Atomic int     hold_in, hold_release, add_pre; // mode parked: the blocking ADD_PRE callback
 	int             ns;
 	nng_socket      s[MAXS];
 	int             sh[MAXS];
@@ -1365,7 +1367,7 @@ check_pending(casectx *cx, const char *phase)
 		uint64_t t0 = vf_now_ns();
 		if (!rec_wait(rc, grace_ms())) {
 			rc->lost = true;
-			snprintf(key, sizeof(key), "C10/pending-forever/%s/%s", op_names[rc->op], cx->sp[cx->h[rc->hidx].owner]->name);
+			snprintf(key, sizeof(key), "C10/pending-forever/%s/%s", op_names[rc->op], cx->key_tag ? cx->key_tag : cx->sp[cx->h[rc->hidx].owner]->name);
 			snprintf(what, sizeof(what), "%s on a %s still has no callback", op_names[rc->op], hkind_names[cx->h[rc->hidx].kind]);
 			lost(cx, key, what, phase);
 		} else {
@@ -1379,7 +1381,7 @@ check_pending(casectx *cx, const char *phase)
 		while (!atomic_load(&b->done)) {
 			if (vf_now_ns() > end) {
 				b->lost = true;
-				snprintf(key, sizeof(key), "C10/pending-forever/%s/%s", b_names[b->op], cx->sp[cx->h[b->hidx].owner]->name);
+				snprintf(key, sizeof(key), "C10/pending-forever/%s/%s", b_names[b->op], cx->key_tag ? cx->key_tag : cx->sp[cx->h[b->hidx].owner]->name);
 				snprintf(what, sizeof(what), "thread blocked in %s (on a %s that was closed) has not returned", b_names[b->op], hkind_names[cx->h[b->hidx].kind]);
 				lost(cx, key, what, phase);
 				break;
@@ -1932,6 +1934,240 @@ run_case(long idx, vf_rng *r)
 	vf_watchdog(wd_secs);
 }
 
+// ------------------------------------------------------------------ mode parked
+// Negotiated pipes that the core listener has not taken yet: the listener's
+// accept callback is held inside an application pipe callback (ADD_PRE of the
+// first connection) while further clients complete the SP handshake; the
+// transport parks those pipes.  Then the listener or the socket is closed from
+// another thread and the callback is released.  Judged by: the close calls
+// return (bounded: PARK_CLOSE_MS after the callback was released, nominal
+// < 50 ms), pending operations complete, dead-handle probes.
+#define PARK_CLOSE_MS 10000
+static int parked_stuck; // close calls of this process that never returned
+static char parked_seen[16][96];
+static int  parked_nseen;
+
+static void
+parked_cb(nng_pipe p, nng_pipe_ev ev, void *arg)
+{
+	casectx *cx = arg;
+	(void) p;
+	if (ev != NNG_PIPE_EV_ADD_PRE) return;
+	atomic_fetch_add(&cx->add_pre, 1);
+	if (atomic_exchange(&cx->hold_in, 1) != 0) return; // only the first pipe is held up
+	while (!atomic_load(&cx->hold_release)) vf_usleep(200);
+}
+
+typedef struct {
+	casectx    *cx;
+	int         lh, vh;
+	bool        listener_first, sock;
+	int         rv_l, rv_s;
+	_Atomic int stage; // 1 listener close returned, 2 socket close returned
+} parkcl;
+
+static void *
+parked_closer(void *arg)
+{
+	parkcl  *pc = arg;
+	casectx *cx = pc->cx;
+	while (!atomic_load(&cx->go)) sched_yield();
+	if (pc->listener_first) {
+		cact a = { .kind = CA_LISTENER, .hidx = pc->lh, .ctx_name = cm_names[CM_THREAD] };
+		do_close(cx, &a);
+		pc->rv_l = a.rv;
+		atomic_store(&pc->stage, 1);
+	}
+	cact b = { .kind = CA_SOCK, .hidx = pc->vh, .ctx_name = cm_names[CM_THREAD] };
+	do_close(cx, &b);
+	pc->rv_s = b.rv;
+	atomic_store(&pc->stage, 2);
+	return NULL;
+}
+
+static void
+run_parked_case(long idx, vf_rng *r)
+{
+	casectx *cx = calloc(1, sizeof(*cx));
+	char     url[128], durl[128] = "", key[160];
+	int      rv, t;
+	pthread_mutex_init(&cx->hmtx, NULL);
+	cx->idx     = idx;
+	cx->key_tag = "parked-negotiated-pipes";
+	const vf_proto *P = &vf_protos[vf_below(r, (uint32_t) vf_nprotos)];
+	const vf_proto *Q = vf_proto_by_name(P->peer_name);
+	cx->proto = P;
+	static const int trans[] = { VF_T_TCP, VF_T_IPC, VF_T_WS, VF_T_SOCKFD };
+	t        = trans[(idx + (long) vf_below(r, 2) * 0) % 4];
+	cx->tran = t;
+	bool listener_first = vf_chance(r, 1, 2);
+	bool nng_clients    = t == VF_T_WS || (t != VF_T_SOCKFD && vf_chance(r, 1, 2));
+	int  nclients       = (int) vf_range(r, 1, 3);
+	int  pert           = (int) vf_below(r, 3);
+	vf_pt_off();
+	if (pert == 1) vf_pt_jitter(vf_rand(r), (int) vf_range(r, 5, 40), (int) vf_range(r, 20, 200));
+	vf_case_begin(idx, "parked proto=%s tran=%s close=%s clients=%d%s pert=%s", P->name, tname(t), listener_first ? "listener+socket" : "socket", nclients, nng_clients ? "(nng)" : "(raw)", pert == 1 ? "jitter" : "none");
+	vf_url(VF_T_INPROC, cx->dead_url, sizeof(cx->dead_url));
+
+	int V = open_sock(cx, P, false), W = open_sock(cx, Q, false);
+	nng_socket   sv = cx->s[V], sw = cx->s[W];
+	nng_listener l;
+	nng_pipe_notify(sv, NNG_PIPE_EV_ADD_PRE, parked_cb, cx);
+	if (!strcmp(P->name, "sub")) nng_sub0_socket_subscribe(sv, "", 0);
+	if (t == VF_T_SOCKFD) snprintf(url, sizeof(url), "socket://");
+	else vf_url(t, url, sizeof(url));
+	if ((rv = nng_listener_create(&l, sv, url)) != 0 || (rv = nng_listener_start(l, 0)) != 0) vf_harness_fail("parked listen %s: %s", url, nng_strerror(rv));
+	int lh = h_add(cx, H_LISTENER, (uint32_t) nng_listener_id(l), V, -1);
+	if (t != VF_T_SOCKFD && (rv = vf_dial_url(l, t, url, durl, sizeof(durl))) != 0) vf_harness_fail("dial url: %s", nng_strerror(rv));
+
+	// first connection: its ADD_PRE callback holds the listener's accept path
+	if (t == VF_T_SOCKFD) {
+		int fds[2];
+		if (nng_socket_pair(fds) != 0) vf_harness_fail("socket pair");
+		nng_listener lw;
+		if (nng_listener_create(&lw, sw, "socket://") != 0 || nng_listener_start(lw, 0) != 0 || nng_listener_set_int(lw, NNG_OPT_SOCKET_FD, fds[1]) != 0 ||
+		    nng_listener_set_int(l, NNG_OPT_SOCKET_FD, fds[0]) != 0)
+			vf_harness_fail("socket:// first connection");
+		h_add(cx, H_LISTENER, (uint32_t) nng_listener_id(lw), W, -1);
+	} else {
+		nng_dialer d;
+		if ((rv = nng_dial(sw, durl, &d, NNG_FLAG_NONBLOCK)) != 0) vf_harness_fail("parked dial %s: %s", durl, nng_strerror(rv));
+		h_add(cx, H_DIALER, (uint32_t) nng_dialer_id(d), W, -1);
+	}
+	for (int k = 0; k < 25000 && !atomic_load(&cx->hold_in); k++) vf_usleep(200);
+	if (!atomic_load(&cx->hold_in)) vf_harness_fail("parked: the ADD_PRE callback never ran over %s", tname(t));
+
+	// further clients complete the handshake; nobody is there to take them
+	int        completed = 0;
+	nng_socket extra[3];
+	int        nextra = 0;
+	for (int i = 0; i < nclients; i++) {
+		if (nng_clients) {
+			nng_socket c;
+			if (Q->open(&c) != 0) vf_harness_fail("open client");
+			extra[nextra++] = c;
+			// the dialer's side completes when the listener's side has
+			// negotiated (SP header exchange / websocket upgrade)
+			if (nng_dial(c, durl, NULL, 0) == 0) completed++;
+		} else {
+			int fd = -1;
+			if (t == VF_T_SOCKFD) {
+				int fds[2];
+				if (nng_socket_pair(fds) != 0) vf_harness_fail("socket pair");
+				if (nng_listener_set_int(l, NNG_OPT_SOCKET_FD, fds[0]) != 0) {
+					close(fds[0]);
+					close(fds[1]);
+					continue;
+				}
+				fd = fds[1];
+			} else fd = raw_connect_url(durl, t);
+			if (fd < 0) continue;
+			if (vf_sp_handshake(fd, P->peer, NULL, 3000) == 0) completed++;
+			fd_keep(cx, fd);
+		}
+	}
+	vf_msleep(3); // (the listener's side of the last handshake ends microseconds later)
+	int parked = completed - (atomic_load(&cx->add_pre) - 1);
+	if (parked < 0) parked = 0;
+	vf_stat("parked_negotiated_pipes_at_close", parked);
+	vf_stat("parked_cases_with_parked_pipes", parked > 0);
+	vf_class("parked=%s/%s/%s/%d", tname(t), nng_clients ? "nng-clients" : "raw-clients", listener_first ? "listener-then-socket" : "socket", parked);
+
+	// pending work on the victim
+	if (can_recv(P)) {
+		rec *a = rec_new(cx, OP_SOCK_RECV, cx->sh[V], -1, -1);
+		if (a) rec_submit(a);
+		if (vf_chance(r, 1, 2)) blocker_add(cx, B_RECVMSG, cx->sh[V]);
+	}
+	for (int i = 0; i < cx->nr; i++) atomic_store(&cx->r[i].pending_at_close, !rec_idle(&cx->r[i]));
+
+	parkcl    pc = { .cx = cx, .lh = lh, .vh = cx->sh[V], .listener_first = listener_first, .rv_l = -1, .rv_s = -1 };
+	pthread_t th;
+	if (pthread_create(&th, NULL, parked_closer, &pc) != 0) vf_harness_fail("pthread_create");
+	bool release_first = vf_chance(r, 1, 5);
+	if (release_first) atomic_store(&cx->hold_release, 1);
+	atomic_store(&cx->go, 1);
+	vf_usleep((int) vf_range(r, 200, 4000));
+	atomic_store(&cx->hold_release, 1);
+
+	// every close call returns once the callback has returned
+	snprintf(key, sizeof(key), "C10/close-never-returns/%s/parked-negotiated-pipes/%s/%s", listener_first ? "nng_listener_close+nng_socket_close" : "nng_socket_close", tname(t), nng_clients ? "nng-clients" : "raw-clients");
+	bool first = true;
+	for (int i = 0; i < parked_nseen; i++) first &= strcmp(parked_seen[i], key) != 0;
+	uint64_t end   = vf_now_ns() + (uint64_t) (first ? PARK_CLOSE_MS : 500) * 1000000ULL;
+	bool     stuck = false;
+	while (atomic_load(&pc.stage) != 2) {
+		if (vf_now_ns() > end) {
+			stuck = true;
+			break;
+		}
+		vf_usleep(200);
+	}
+	if (stuck) {
+		if (first) {
+			if (parked_nseen < 16) snprintf(parked_seen[parked_nseen++], sizeof(parked_seen[0]), "%s", key);
+			vf_violation(key, "%s has not returned %d ms after the pipe callback that held the accept path returned; %d negotiated pipe(s) were parked in the %s transport when the close began",
+			    atomic_load(&pc.stage) == 1 ? "nng_socket_close (after nng_listener_close returned)" : listener_first ? "nng_listener_close" : "nng_socket_close", PARK_CLOSE_MS, parked, tname(t));
+		} else vf_stat("parked_close_stuck_after_first_verdict", 1);
+		// the thread, the socket and everything hanging off it are abandoned;
+		// nng_fini would wait for the same pipes: this process skips it
+		parked_stuck++;
+		pthread_detach(th);
+		cx->keep = true;
+		for (int i = 0; i < cx->nr; i++) cx->r[i].lost = true;
+		for (int i = 0; i < cx->nb; i++) {
+			cx->b[i].lost = true;
+			pthread_detach(cx->b[i].th);
+		}
+		for (int i = 0; i < nextra; i++) nng_socket_close(extra[i]);
+		nng_socket_close(sw);
+		if (nkept < 512) kept[nkept++] = cx;
+		vf_stat("cases", 1);
+		vf_watchdog(wd_secs);
+		return;
+	}
+	pthread_join(th, NULL);
+	vf_stat("parked_closes_returned", 1);
+
+	nng_aio *paio;
+	if (nng_aio_alloc(&paio, NULL, NULL) != 0) vf_harness_fail("aio alloc");
+	check_pending(cx, "after the close with parked pipes");
+	probe_all_dead(cx, paio);
+	int eof = 0;
+	for (int i = 0; i < cx->nfd; i++) eof += vf_fd_wait_eof(cx->fds[i], 2000) == 1;
+	vf_stat("parked_raw_clients_saw_the_connection_closed", eof);
+	for (int i = 0; i < nextra; i++) nng_socket_close(extra[i]);
+	rv = nng_socket_close(sw);
+	if (rv == 0) h_closed(cx, cx->sh[W]);
+	for (int i = 0; i < cx->nfd; i++) close(cx->fds[i]);
+	check_pending(cx, "after every socket was closed");
+	for (int i = 0; i < cx->nb; i++) {
+		if (cx->b[i].lost) pthread_detach(cx->b[i].th);
+		else pthread_join(cx->b[i].th, NULL);
+	}
+	probe_all_dead(cx, paio);
+	nng_aio_free(paio);
+	for (int i = 0; i < cx->nr; i++) {
+		if (cx->r[i].lost) continue;
+		nng_aio_stop(cx->r[i].aio);
+		nng_aio_free(cx->r[i].aio);
+	}
+	vf_pt_off();
+	vf_stat("cases", 1);
+	vf_stat("close_calls", 1);
+	if (cx->keep) {
+		if (nkept < 512) kept[nkept++] = cx;
+	} else {
+		if (prev_cx[1]) {
+			pthread_mutex_destroy(&prev_cx[1]->hmtx);
+			free(prev_cx[1]);
+		}
+		prev_cx[1] = prev_cx[0];
+		prev_cx[0] = cx;
+	}
+	vf_watchdog(wd_secs);
+}
+
 static void
 c10_fini(void)
 {
@@ -1972,11 +2208,12 @@ main(int argc, char **argv)
 			base_live = -1;
 		}
 		vf_rng_seed(&r, vf_seed, (uint64_t) i);
-		run_case(i, &r);
+		if (!strcmp(vf_mode, "parked")) run_parked_case(i, &r);
+		else run_case(i, &r);
 		since++;
 		// allocator balance: attribute a leak to the case that caused it
-		bool fini = since >= 30;
-		if (!fini && vf_alloc_total() > 0) {
+		bool fini = since >= 30 && parked_stuck == 0;
+		if (!fini && parked_stuck == 0 && vf_alloc_total() > 0) {
 			vf_quiesce(1, 1000);
 			long live = vf_alloc_live_blocks();
 			if (base_live >= 0 && live > base_live) {
@@ -1990,7 +2227,7 @@ main(int argc, char **argv)
 			inited = 0;
 		}
 	}
-	if (inited) c10_fini();
+	if (inited && parked_stuck == 0) c10_fini();
 	for (int s = NNI_VP_PIPE_CLOSE_FLAGGED; s < NNI_VP_NSITES; s++) {
 		if (vf_pt_delays(s)) {
 			char k[64];
@@ -1998,5 +2235,7 @@ main(int argc, char **argv)
 			vf_stat(k, vf_pt_delays(s));
 		}
 	}
-	return vf_finish();
+	int rc = vf_finish();
+	if (parked_stuck) _exit(rc); // nng_fini (atexit, sanitizer leak pass) would wait for the stuck sockets
+	return rc;
 }
